@@ -92,22 +92,19 @@ func build(smoke bool) (bin string, treeHash string) {
 	dir := filepath.Join(cache, all)
 	bin = filepath.Join(dir, "sim.test")
 	if _, err := os.Stat(bin); err == nil && !smoke {
+		now := time.Now()
+		os.Chtimes(dir, now, now)
 		return bin, repoHash
 	}
-	// keep the cache small: the newest other entry survives, the rest goes
+	// keep the cache small: entries not used for 30 minutes go (a younger one
+	// may belong to a check of another tree that is running right now)
 	if ents, err := os.ReadDir(cache); err == nil {
-		var newest string
-		var newestT time.Time
 		for _, e := range ents {
 			if e.Name() == all {
 				continue
 			}
-			if st, err := os.Stat(filepath.Join(cache, e.Name(), "sim.test")); err == nil && st.ModTime().After(newestT) {
-				newest, newestT = e.Name(), st.ModTime()
-			}
-		}
-		for _, e := range ents {
-			if e.Name() != all && e.Name() != newest {
+			st, err := os.Stat(filepath.Join(cache, e.Name()))
+			if err == nil && time.Since(st.ModTime()) > 30*time.Minute {
 				os.RemoveAll(filepath.Join(cache, e.Name()))
 			}
 		}
